@@ -85,7 +85,8 @@ def step (s : St) (line : String) : St × String :=
   | "U" :: _ :: be :: rest =>
     let get (k : String) : Bool := rest.any (fun t => t == k ++ "=1")
     ({ ft := { compat := get "compat", kuf := get "kuf", deq := get "deq", setter := get "setter", noProcessor := get "noproc",
-               enumAnn := get "enumann", fieldMask := get "fm", halfway := get "halfway", fastgo := be == "fastgo" } }, "ok")
+               enumAnn := get "enumann", fieldMask := get "fm", halfway := get "halfway", fastgo := be == "fastgo",
+               adaptor := get "adaptor" } }, "ok")
   | ["I", r, v] => ({ s with table := put (hex? r) (hex? v) s.table }, "ok")
   | "F" :: _ => ({ ft := s.ft, table := s.table }, "ok")
   | ["V", n, e] => ({ s with svcs := { name := hex? n, fns := [] } :: s.svcs, bases := (hex? n, flag e) :: s.bases }, "ok")
